@@ -254,7 +254,11 @@ func runStream(w *bufio.Writer, r *u.Rng, scramble bool, g genCH, extra []byte, 
 			fail("scrambler/hasdata-early", "HasData is true before the whole ClientHello is queued")
 		}
 		if complete && len(W) > 0 && !has && g.class == 0 {
-			fail("scrambler/never-sent", "the complete ClientHello is queued but HasData stays false: it is never sent")
+			key := "scrambler/never-sent"
+			if scramble && g.sniPos == -1 && g.echPos != -1 {
+				key = "scrambler/never-sent/ech-without-sni" // the input class of the known finding
+			}
+			fail(key, "the complete ClientHello is queued but HasData stays false: it is never sent")
 			return false
 		}
 		return true
@@ -277,7 +281,11 @@ func runStream(w *bufio.Writer, r *u.Rng, scramble bool, g genCH, extra []byte, 
 						for _, c := range covered {
 							all = all && c
 						}
-						fail("scrambler/stuck", fmt.Sprintf("PopCryptoFrame(%d) returns nil although HasData is true (all bytes sent so far: %v); nothing written later can ever be sent", ml, all))
+						key := "scrambler/stuck"
+						if scramble && g.sniPos != -1 && g.sniLen == 0 {
+							key = "scrambler/stuck/empty-host-name" // the input class of the known finding
+						}
+						fail(key, fmt.Sprintf("PopCryptoFrame(%d) returns nil although HasData is true (all bytes sent so far: %v); nothing written later can ever be sent", ml, all))
 						return false
 					}
 				}
